@@ -307,6 +307,10 @@ func (self *Metadata) enumerateTemp() ([]string, error) {
 		return nil, nil
 	} else {
 		paths, err := util.Readdirnames(td)
+		if os.IsNotExist(err) {
+			// The job removed its own temp directory: nothing is left in it.
+			return nil, nil
+		}
 		for i, p := range paths {
 			paths[i] = path.Join(td, p)
 		}
